@@ -13,7 +13,9 @@
     counts exact; C08: tables consistent) then hold of the state it leaves. *)
 From Coq Require Import List. Import ListNotations.
 From CR Require Import Base Atomic Machine InvDef StepInv.
+From CR Require Import ActBase ActConsume.
 From Gen Require Import EffectsLang EffectsGen EffectsProofs EffectsSem DropLang DropGen DropProofs DropCompose.
+From Gen Require Import EffectsSemRc EffectsSemRcInv RcCompose.
 
 Theorem translated_rc_drop_is_safe stk pri s o k u :
   Inv s (FDropStrong o :: k) ->
@@ -29,4 +31,29 @@ Proof.
   destruct (run_drop_trees stk pri o g_rc_drop s) as [[s1 push]|e]; exact G.
 Qed.
 
+(** C12, about the translated source: [try_unwrap] and [make_mut] -- the
+    regenerated trees of the two functions AND of their callee [release_links]
+    -- called from a program ([self = None]) or from a destructor script, on
+    any object of any state satisfying the invariant, can neither fault nor
+    abort, and re-establish the invariant *)
+Theorem translated_try_unwrap_is_safe s self pc k r dst o :
+  Inv s (ctx self pc k) -> reg_get s r = RStrong o -> reg_free s dst = true ->
+  exists out, as_aout self (run_fn_trees {| hreg := r; hdst := dst; rthis := o |} g_try_unwrap s) = Some out /\
+              act_post_strict self pc k out.
+Proof.
+  intros HI Hr Hf. eexists. split; [apply (try_unwrap_end_to_end s self r dst o Hr Hf)|].
+  apply try_unwrap_strict. exact HI.
+Qed.
+
+Theorem translated_make_mut_is_safe s self pc k r o :
+  Inv s (ctx self pc k) -> reg_get s r = RStrong o ->
+  exists out, as_aout self (run_fn_trees {| hreg := r; hdst := r; rthis := o |} g_make_mut s) = Some out /\
+              act_post_strict self pc k out.
+Proof.
+  intros HI Hr. eexists. split; [apply (make_mut_end_to_end s (ctx self pc k) self r o HI Hr)|].
+  apply make_mut_strict. exact HI.
+Qed.
+
 Print Assumptions translated_rc_drop_is_safe.
+Print Assumptions translated_try_unwrap_is_safe.
+Print Assumptions translated_make_mut_is_safe.
